@@ -262,12 +262,15 @@ def _arith(op, l, r):
     if isinstance(op, ast.Add): return Sc(lz + rz, 'float' if isf else 'int')
     if isinstance(op, ast.Sub): return Sc(lz - rz, 'float' if isf else 'int')
     if isinstance(op, ast.Mult): return Sc(lz * rz, 'float' if isf else 'int')
-    if isinstance(op, ast.Mod):
-        if isf: raise Unsupported('float modulo')
-        return Sc(lz % rz, 'int')          # z3 mod == Python % for positive divisor (callers constrain divisor > 0)
-    if isinstance(op, ast.FloorDiv):
-        if isf: raise Unsupported('float floor division')
-        return Sc(lz / rz, 'int')          # z3 int div == floor for positive divisor
+    if isinstance(op, (ast.Mod, ast.FloorDiv)):
+        if isf: raise Unsupported('float modulo / floor division')
+        # Python: q = floor(l / r), l % r = l - r*q (sign of the divisor).  SMT-LIB div/mod are Euclidean: they agree with
+        # Python for a positive divisor; for a negative one floor(l/r) = floor((-l)/(-r)) = (-l) div (-r).
+        rs = z3.simplify(rz)
+        if z3.is_int_value(rs) and rs.as_long() > 0:
+            return Sc(lz % rz, 'int') if isinstance(op, ast.Mod) else Sc(lz / rz, 'int')
+        q = z3.If(rz > 0, lz / rz, (-lz) / (-rz))
+        return Sc(lz - rz * q, 'int') if isinstance(op, ast.Mod) else Sc(q, 'int')
     if isinstance(op, ast.Pow):
         if z3.is_int_value(rz) and rz.as_long() >= 0 and rz.as_long() <= 6:
             n = rz.as_long(); out = z3.RealVal(1) if isf else z3.IntVal(1)
@@ -413,10 +416,16 @@ class ExprMixin(object):
             return [(Text(cat(self.to_doc(l), self.to_doc(r))), st)]
         if isinstance(op, ast.Add) and isinstance(l, Tup) and isinstance(r, Tup):
             return [(Tup(l.items + r.items), st)]
+        if isinstance(op, ast.Add) and isinstance(l, PyList) and isinstance(r, PyList):
+            return [(st.new_cell(PyList(l.items + r.items)), st)]
         if isinstance(l, Sc) and isinstance(r, Sc):
-            if isinstance(op, (ast.Div, ast.Mod, ast.FloorDiv)) and self.track_div:
-                # ZeroDivisionError site
-                pass
+            if isinstance(op, (ast.Div, ast.Mod, ast.FloorDiv)):
+                # ZeroDivisionError site (int and float alike) unless the divisor is a non-zero literal
+                rs = z3.simplify(r.z)
+                if not ((z3.is_int_value(rs) or z3.is_rational_value(rs)) and not z3.is_true(z3.simplify(rs == 0))):
+                    s_z = st.copy(); s_z.pc.append(r.z == 0)
+                    self.raise_exc('ZeroDivisionError', s_z)
+                    st.pc.append(r.z != 0)
             return [(_arith(op, l, r), st)]
         raise Unsupported('binop %s on %r, %r' % (type(op).__name__, l, r))
 
@@ -476,6 +485,18 @@ class ExprMixin(object):
         Python's short-circuit semantics for pure operands.  Facts learnt while evaluating an operand (postconditions of
         contract calls) are kept in the real state, guarded by the condition under which that operand is evaluated."""
         isand = isinstance(n.op, ast.And)
+        if len(n.values) == 2 and not getattr(self, '_in_truth_context', False):
+            # value position with non-boolean operands: `a or b` is a if a is true else b (operands without side effects)
+            try:
+                ra = self.ev(n.values[0], st.copy())
+                if len(ra) == 1 and isinstance(self.deref(ra[0][0], ra[0][1]), Sc) and self.deref(ra[0][0], ra[0][1]).py in ('int', 'float', 'str'):
+                    a, s_a = self.deref(ra[0][0], ra[0][1]), ra[0][1]
+                    rb = self.ev(n.values[1], s_a)
+                    if len(rb) == 1 and isinstance(self.deref(rb[0][0], rb[0][1]), Sc) and self.deref(rb[0][0], rb[0][1]).py == a.py:
+                        b, s_b = self.deref(rb[0][0], rb[0][1]), rb[0][1]
+                        t = self.truth(a, s_b)
+                        return [(Sc(z3.If(t, b.z, a.z) if isand else z3.If(t, a.z, b.z), a.py), s_b)]
+            except Unsupported: pass
         out = []
         def go(i, s_eval, acc, guard):
             n0 = len(s_eval.pc)
@@ -501,6 +522,12 @@ class ExprMixin(object):
     def ev_Compare(self, n, st):
         out = []
         for l, s1 in self.ev(n.left, st):
+            if len(n.ops) == 2:
+                # a op1 b op2 c  ==  (a op1 b) and (b op2 c) with b evaluated once (operands are side-effect free expressions here)
+                for m_, s2 in self.ev(n.comparators[0], s1):
+                    for r, s3 in self.ev(n.comparators[1], s2):
+                        out.append((Sc(z3.And(self.compare(n.ops[0], l, m_, s3), self.compare(n.ops[1], m_, r, s3)), 'bool'), s3))
+                continue
             if len(n.ops) != 1: raise Unsupported('chained comparison')
             for r, s2 in self.ev(n.comparators[0], s1):
                 out.append((Sc(self.compare(n.ops[0], l, r, s2), 'bool'), s2))
@@ -730,8 +757,8 @@ class ExprMixin(object):
         c, i = self.deref(c, st), self.deref(i, st)
         if isinstance(c, Dual): c = c.dict
         if isinstance(c, (Tup, PyList)):
-            if isinstance(i, Sc) and z3.is_int_value(i.z):
-                k = i.z.as_long()
+            if isinstance(i, Sc) and z3.is_int_value(z3.simplify(i.z)):
+                k = z3.simplify(i.z).as_long()
                 if -len(c.items) <= k < len(c.items): return [(c.items[k], st)]
                 return self.raise_exc('IndexError', st)
             raise Unsupported('symbolic index into concrete list')
@@ -853,7 +880,7 @@ def TupleSort(sorts):
 def _tuple_term(zs):
     return TupleSort([z.sort() for z in zs]).mk(*zs)
 
-_BUILTINS = set('reversed round float int len range print sorted tuple list set dict str min max abs enumerate zip hasattr isinstance super StringIO open bool round sum Exception ValueError KeyError TypeError IndexError NotImplementedError AttributeError ZeroDivisionError NameError object property'.split())
+_BUILTINS = set('min max sum reversed round float int len range print sorted tuple list set dict str min max abs enumerate zip hasattr isinstance super StringIO open bool round sum Exception ValueError KeyError TypeError IndexError NotImplementedError AttributeError ZeroDivisionError NameError object property'.split())
 
 
 # =====================================================================================
@@ -1496,15 +1523,20 @@ class CallMixin(object):
                         self.obl('float-int-value', st, x == xv, extra_h=hyps)
                         x = xv
                     self.obl('float-int-range', st, z3.And(x <= M, x >= -M), extra_h=hyps)
-                    if src is not None: goal = trunc(round_n(x + e, src[1])) == trunc(round_n(x, src[1]))
+                    rh = []
+                    if src is not None:
+                        # any round-to-nearest (whatever the tie rule): an integer multiple of 10^-n within half a unit of the argument
+                        p_ = z3.RealVal(10 ** src[1]); r1, r2 = fresh(IntS, 'rnd_pert'), fresh(IntS, 'rnd_exact'); hf = z3.RealVal('1/2')
+                        rh = [z3.ToReal(r1) - (x + e) * p_ <= hf, (x + e) * p_ - z3.ToReal(r1) <= hf, z3.ToReal(r2) - x * p_ <= hf, x * p_ - z3.ToReal(r2) <= hf]
+                        goal = trunc(z3.ToReal(r1) / p_) == trunc(z3.ToReal(r2) / p_)
                     else: goal = trunc(x + e) == trunc(x)
-                    o_ = self.obl('float-int-robust', st, goal, extra_h=hyps + [e >= -eps, e <= eps], carries=True)
-                    if rv is not None: o_.hyps = hyps + [e >= -eps, e <= eps]      # nothing else is needed: keeps the query small
+                    o_ = self.obl('float-int-robust', st, goal, extra_h=hyps + rh + [e >= -eps, e <= eps], carries=True)
+                    if rv is not None: o_.hyps = hyps + rh + [e >= -eps, e <= eps]      # nothing else is needed: keeps the query small
                 return [(Sc(trunc(a.z), 'int'), st)]
             raise Unsupported('int(%r)' % (a,))
         if name == 'round' and len(d) == 2 and isinstance(d[1], Sc) and z3.is_int_value(d[1].z) and isinstance(d[0], Sc):
             nd = d[1].z.as_long(); x = self.as_real(d[0])
-            self.reg.assume('round(x, n) is modelled as floor(x*10^n + 1/2)/10^n (Python rounds halves to even and works on the binary value: differs only at exact halves)')
+            self.reg.assume('round(x, n): nearest multiple of 10^-n of the exact value of x, ties to even (as CPython); its conversion back to a float is A1')
             out = Sc(round_n(x, nd), 'float'); out.rounded_from = (x, nd)
             return [(out, st)]
         if name == 'len':
@@ -1512,6 +1544,7 @@ class CallMixin(object):
             if isinstance(a, (Tup, PyList)): return [(Sc(z3.IntVal(len(a.items)), 'int'), st)]
             if isinstance(a, SeqV): return [(Sc(z3.Length(a.z), 'int'), st)]
             if isinstance(a, PyStr): return [(Sc(z3.IntVal(len(a.s)), 'int'), st)]
+            if isinstance(a, Sc) and a.py == 'str': return [(Sc(z3.Length(a.z), 'int'), st)]
             if isinstance(a, PyDict): return [(Sc(z3.IntVal(len(a.d)), 'int'), st)]
             raise Unsupported('len(%r)' % (a,))
         if name == 'StringIO':
@@ -1522,6 +1555,19 @@ class CallMixin(object):
             doc = cat(*[self.text_of(a, st) for a in d]) if len(d) == 1 else cat(*sum([[self.text_of(a, st), lit_doc(' ')] for a in d], [])[:-1])
             self.doc_append(f, cat(doc, NL), st)
             return [(NONE, st)]
+        if name in ('min', 'max') and len(d) == 2 and all(isinstance(x, Sc) and x.py in ('int', 'float') for x in d) and not kw:
+            a, b = d
+            if a.py != b.py: az, bz, py = self.as_real(a), self.as_real(b), None
+            else: az, bz, py = a.z, b.z, a.py
+            if py is None: raise Unsupported('min/max of mixed int and float (the result type depends on the values)')
+            # Python returns the first argument on ties
+            return [(Sc(z3.If(bz < az, bz, az) if name == 'min' else z3.If(bz > az, bz, az), py), st)]
+        if name == 'abs' and len(d) == 1 and isinstance(d[0], Sc) and d[0].py in ('int', 'float'):
+            return [(Sc(z3.If(d[0].z < 0, -d[0].z, d[0].z), d[0].py), st)]
+        if name == 'sum' and len(d) == 1 and isinstance(d[0], (Tup, PyList)) and all(isinstance(self.deref(x, st), Sc) and self.deref(x, st).py == 'int' for x in d[0].items):
+            tot = z3.IntVal(0)
+            for x in d[0].items: tot = tot + self.deref(x, st).z
+            return [(Sc(tot, 'int'), st)]
         if name == 'reversed':
             a = d[0]
             if isinstance(a, NTup): a = Tup(list(a.items))
@@ -2006,8 +2052,31 @@ _EXC_BUILTINS = set('ValueError KeyError TypeError IndexError NotImplementedErro
 
 join_fn = z3.Function('join', Doc, DocList, Doc)
 def round_n(x, n):
+    """Python's round(x, n) on the exact value of x: nearest multiple of 10**-n, ties to the even one
+    (the conversion of the result back to a float is A1)"""
     p = z3.RealVal(10 ** n)
-    return z3.ToReal(z3.ToInt(x * p + z3.RealVal('1/2'))) / p
+    y = x * p
+    f = z3.ToInt(y)                      # floor
+    d = y - z3.ToReal(f)
+    half = z3.RealVal('1/2')
+    r = z3.If(d < half, f, z3.If(d > half, f + 1, z3.If(f % 2 == 0, f, f + 1)))
+    return z3.ToReal(r) / p
+
+def py_literal(pv, ty):
+    import fractions
+    k = ty.kind
+    if k == 'Int': return z3.IntVal(int(pv))
+    if k == 'Bool': return z3.BoolVal(bool(pv))
+    if k == 'Str': return z3.StringVal(pv)
+    if k == 'Real':
+        f = fractions.Fraction(pv)
+        return z3.RealVal('%d/%d' % (f.numerator, f.denominator))
+    if k == 'List':
+        zs = [z3.Unit(py_literal(x, ty.args[0])) for x in pv]
+        return z3.Empty(z3.SeqSort(ty.args[0].sort())) if not zs else zs[0] if len(zs) == 1 else z3.Concat(*zs)
+    if k == 'Tuple':
+        return TupleSort([a.sort() for a in ty.args]).mk(*[py_literal(x, a) for x, a in zip(pv, ty.args)])
+    raise Unsupported('literal of type %r' % ty)
 
 split_on = z3.Function('split_on', StrS, StrS, z3.SeqSort(StrS))
 split_ws = z3.Function('split_ws', StrS, z3.SeqSort(StrS)); strip_ws = z3.Function('strip_ws', StrS, StrS)
@@ -2065,6 +2134,18 @@ class Executor(Exec, ExprMixin, StmtMixin, CallMixin):
             return SymDict(z3.Const(nm + '.has', z3.ArraySort(kty.sort(), BoolS)), z3.Const(nm + '.get', z3.ArraySort(kty.sort(), vty.sort())), kty, vty)
         return wrap(ty, z3.Const(nm, ty.sort()))
 
+    def literal_input(self, pv, ty, st):
+        """a literal of type `ty` (conformance self-test: the executor is run on concrete inputs and compared with CPython)"""
+        k = ty.kind
+        if k == 'Opt': return NONE if pv is None else self.literal_input(pv, ty.args[0], st)
+        if k in ('Int', 'Real', 'Bool', 'Str'): return Sc(py_literal(pv, ty), {'Int': 'int', 'Real': 'float', 'Bool': 'bool', 'Str': 'str'}[k])
+        if k == 'List':
+            ety = ty.args[0]
+            zs = [z3.Unit(py_literal(x, ety)) for x in pv]
+            return SeqV(z3.Empty(z3.SeqSort(ety.sort())) if not zs else zs[0] if len(zs) == 1 else z3.Concat(*zs), ety)
+        if k == 'MList': return st.new_cell(PyList([self.literal_input(x, ty.args[0], st) for x in pv]))
+        raise Unsupported('literal of type %r' % ty)
+
     def run(self):
         c, fi = self.contract, self.fi
         fnames = [a.arg for a in fi.node.args.args]
@@ -2072,7 +2153,7 @@ class Executor(Exec, ExprMixin, StmtMixin, CallMixin):
             raise ContractMismatch('%s::%s parameters are %s but the contract declares %s' % (fi.file, fi.qualname, fnames, list(c.params)))
         st = State()
         for nm, ty in c.params.items():
-            st.env[nm] = self.make_input(nm, ty, st)
+            st.env[nm] = self.literal_input(c.concrete_inputs[nm], ty, st) if nm in c.concrete_inputs else self.make_input(nm, ty, st)
         entry = st.copy()
         self.old_ns = NS(self, entry)
         st.pc += c.requires(NS(self, st))
@@ -2105,6 +2186,7 @@ class Executor(Exec, ExprMixin, StmtMixin, CallMixin):
                         else: res_z = Opt(z3.BoolVal(False), vd)
                     elif c.result.kind == 'Real' and isinstance(vd, Sc): res_z = self.as_real(vd)
                     elif c.result.kind == 'Val' and isinstance(vd, (Sc, PyStr)): res_z = to_val(unwrap(vd))
+                    elif c.result.kind == 'List' and isinstance(vd, (PyList, Tup)) and not vd.items: res_z = z3.Empty(c.result.sort())
                     elif c.result.kind == 'Fn': res_z = self.as_fn(val, o.state)
                     elif c.result.kind == 'Obj' and isinstance(vd, Rec): res_z = self.rec_to_obj(vd, o.state).z
                     else: res_z = unwrap(vd)
